@@ -22,7 +22,7 @@ def main():
             if r["detected"]:
                 det.append(f"{c} ({', '.join(r['violated'][:3])}; {r['wall_s']} s)")
         fr = FIRST.get(name, {})
-        rows.append((name, m["property"], first_line[:150], "; ".join(det) or "NOT caught", fr.get("first", "caught"), fr.get("then", "")))
+        rows.append((name, m["property"], first_line[:150], "; ".join(det) or "NOT caught", fr.get("first", "caught"), fr.get("then") or ""))
     out = ["## 10. Seeded changes and the checks that catch them", "",
            "Each row is one change written by a fresh sub-agent that saw only the property text and its own scratch worktree. `confirmed` in",
            "meta.json = I re-ran the demonstration without / with the change and the whole unedited test suite with the change myself.",
